@@ -76,7 +76,7 @@ PROPS["C01"] = {
     "model_is_spec": ['eval', 'enum'],
     "lean_module": "LispModel.Props.C01",
     "engines": [{"name": "eval", "quick": 6000, "thorough": 120000},
-                {"name": "enum", "quick": 60000, "thorough": 400000}],
+                {"name": "enum", "quick": 60000, "thorough": 400000, "deterministic": True}],
     "ignore_spec": {},
     "technique": "Lean 4 theorems (evaluation laws of the implementation-shaped evaluator model) + differential correspondence on typed random programs",
     "level_text": "Kernel-checked evaluation laws (one per clause of the language definition: scoping, sequential let, def, closures, truthiness, "
